@@ -4,6 +4,10 @@
 patch="$1"; shift
 W=/tmp/mutrepo_$$
 git -C /repo worktree add -q --detach "$W" HEAD || exit 2
+# add-only export files of /repo that are not committed yet belong to the tree under test too
+(cd /repo && git ls-files --others --exclude-standard -- 'verif_export*.go' '*/verif_export*.go') | while read -r f; do
+  mkdir -p "$W/$(dirname "$f")"; cp "/repo/$f" "$W/$f"
+done
 if ! git -C "$W" apply "$patch"; then echo "PATCH DOES NOT APPLY"; git -C /repo worktree remove --force "$W"; exit 2; fi
 cd "$(dirname "$0")/.."
 for p in "$@"; do
